@@ -1,0 +1,493 @@
+//go:build verif
+
+// Encoder-side contracts for package openflow13 (C01 C02 C06 C13), checked by /verif/govc.
+// size(x): number of bytes of x's encoding; wf(x): representation invariant established by the constructors
+// and preserved by the builder methods. Len/MarshalBinary of every kind inherit the util.Message contract
+// (util/zz_contracts_verif.go); only loops and frames are spelled out here.
+
+package openflow13
+
+// ---------------------------------------------------------------------------------------------
+// actions (OpenFlow 1.3.5 section 7.2.5)
+
+//@ spec size(a *ActionHeader) = 4
+//@ spec wf(a *ActionHeader) = true
+//@ spec size(a *ActionOutput) = 16
+//@ spec wf(a *ActionOutput) = len(a.pad) <= 6
+//@ spec size(a *ActionSetqueue) = 8
+//@ spec wf(a *ActionSetqueue) = true
+//@ spec size(a *ActionGroup) = 8
+//@ spec wf(a *ActionGroup) = true
+//@ spec size(a *ActionMplsTtl) = 4
+//@ spec wf(a *ActionMplsTtl) = true
+//@ spec size(a *ActionNwTtl) = 4
+//@ spec wf(a *ActionNwTtl) = true
+//@ spec size(a *ActionDecNwTtl) = 8
+//@ spec wf(a *ActionDecNwTtl) = true
+//@ spec size(a *ActionPush) = 8
+//@ spec wf(a *ActionPush) = true
+//@ spec size(a *ActionPopVlan) = 8
+//@ spec wf(a *ActionPopVlan) = true
+//@ spec size(a *ActionPopMpls) = 8
+//@ spec wf(a *ActionPopMpls) = true
+//@ spec size(a *ActionSetField) = pad8(4 + size(a.Field))
+//@ spec wf(a *ActionSetField) = wf(a.Field)
+
+// ---------------------------------------------------------------------------------------------
+// instructions (section 7.2.4)
+
+//@ spec size(i *InstrHeader) = 4
+//@ spec wf(i *InstrHeader) = true
+//@ spec size(i *InstrGotoTable) = 8
+//@ spec wf(i *InstrGotoTable) = len(i.pad) <= 1
+//@ spec size(i *InstrWriteMetadata) = 24
+//@ spec wf(i *InstrWriteMetadata) = len(i.pad) <= 20
+//@ spec size(i *InstrMeter) = 4
+//@ spec wf(i *InstrMeter) = true
+//@ spec size(i *InstrActions) = 8 + sum(i.Actions)
+//@ spec wf(i *InstrActions) = allwf(i.Actions) && len(i.pad) <= 4
+
+//@ func (*InstrActions).Len(instr) (n)
+//@   loop 1:
+//@     invariant n == uint16(8 + sum(instr.Actions, #k))
+
+//@ func (*InstrActions).MarshalBinary(instr) (data, err)
+//@   loop 1:
+//@     invariant err == nil && len(data) == 8 + sum(instr.Actions, #k)
+
+// ---------------------------------------------------------------------------------------------
+// match (section 7.2.2, 7.2.3) and match-field payloads (Table 12 / meta-flow.h widths)
+
+//@ spec size(m *Match) = pad8(4 + sum(m.Fields))
+//@ spec wf(m *Match) = allwf(m.Fields)
+
+//@ func (*Match).Len(m) (n)
+//@   loop 1:
+//@     invariant n == uint16(4 + sum(m.Fields, #k))
+
+//@ func (*Match).MarshalBinary(m) (data, err)
+//@   flag notrunc
+//@   loop 1:
+//@     invariant n == 4 + sum(m.Fields, #k)
+
+//@ spec size(m *MatchField) = 4 + ite(m.ExperimenterID != 0, 4, 0) + size(m.Value) + ite(m.HasMask, size(m.Mask), 0)
+//@ spec wf(m *MatchField) = wf(m.Value) && (m.HasMask ==> wf(m.Mask))
+
+//@ func (*MatchField).MarshalBinary(m) (data, err)
+//@   flag notrunc
+
+//@ spec size(m *InPortField) = 4
+//@ spec wf(m *InPortField) = true
+//@ spec size(m *EthDstField) = 6
+//@ spec wf(m *EthDstField) = len(m.EthDst) <= 6
+//@ spec size(m *EthSrcField) = 6
+//@ spec wf(m *EthSrcField) = len(m.EthSrc) <= 6
+//@ spec size(m *EthTypeField) = 2
+//@ spec wf(m *EthTypeField) = true
+//@ spec size(m *VlanIdField) = 2
+//@ spec wf(m *VlanIdField) = true
+//@ spec size(m *MplsLabelField) = 4
+//@ spec wf(m *MplsLabelField) = true
+//@ spec size(m *MplsBosField) = 1
+//@ spec wf(m *MplsBosField) = true
+//@ spec size(m *Ipv4SrcField) = 4
+//@ spec wf(m *Ipv4SrcField) = true
+//@ spec size(m *Ipv4DstField) = 4
+//@ spec wf(m *Ipv4DstField) = true
+//@ spec size(m *Ipv6SrcField) = 16
+//@ spec wf(m *Ipv6SrcField) = len(m.Ipv6Src) <= 16
+//@ spec size(m *Ipv6DstField) = 16
+//@ spec wf(m *Ipv6DstField) = len(m.Ipv6Dst) <= 16
+//@ spec size(m *IPv6FlowLabelField) = 4
+//@ spec wf(m *IPv6FlowLabelField) = true
+//@ spec size(m *IpProtoField) = 1
+//@ spec wf(m *IpProtoField) = true
+//@ spec size(m *IpDscpField) = 1
+//@ spec wf(m *IpDscpField) = true
+//@ spec size(m *TunnelIdField) = 8
+//@ spec wf(m *TunnelIdField) = true
+//@ spec size(m *MetadataField) = 8
+//@ spec wf(m *MetadataField) = true
+//@ spec size(m *PortField) = 2
+//@ spec wf(m *PortField) = true
+//@ spec size(m *TcpFlagsField) = 2
+//@ spec wf(m *TcpFlagsField) = true
+//@ spec size(m *ArpOperField) = 2
+//@ spec wf(m *ArpOperField) = true
+//@ spec size(m *TunnelIpv4SrcField) = 4
+//@ spec wf(m *TunnelIpv4SrcField) = true
+//@ spec size(m *TunnelIpv4DstField) = 4
+//@ spec wf(m *TunnelIpv4DstField) = true
+//@ spec size(m *ArpXHaField) = 6
+//@ spec wf(m *ArpXHaField) = len(m.ArpHa) <= 6
+//@ spec size(m *ArpXPaField) = 4
+//@ spec wf(m *ArpXPaField) = true
+//@ spec size(m *ActsetOutputField) = 4
+//@ spec wf(m *ActsetOutputField) = true
+//@ spec size(m *IcmpTypeField) = 1
+//@ spec wf(m *IcmpTypeField) = true
+//@ spec size(m *IcmpCodeField) = 1
+//@ spec wf(m *IcmpCodeField) = true
+//@ spec size(m *Uint16Message) = 2
+//@ spec wf(m *Uint16Message) = true
+//@ spec size(m *Uint32Message) = 4
+//@ spec wf(m *Uint32Message) = true
+//@ spec size(m *CTLabel) = 16
+//@ spec wf(m *CTLabel) = true
+//@ spec size(m *ByteArrayField) = int(m.Length)
+//@ spec wf(m *ByteArrayField) = len(m.Data) <= int(m.Length)
+
+// ---------------------------------------------------------------------------------------------
+// top-level messages (sections 7.3, 7.4); header fields: see the C01 clauses below
+
+//@ spec size(f *FlowMod) = 48 + size(f.Match) + ite(f.Command == 3 || f.Command == 4, 0, sum(f.Instructions))
+//@ spec wf(f *FlowMod) = wf(f.Match) && allwf(f.Instructions) && f.Header.Version == 4 && f.Header.Type == 14
+
+//@ func (*FlowMod).Len(f) (n)
+//@   loop 1:
+//@     invariant n == uint16(48 + size(f.Match) + sum(f.Instructions, #k))
+
+//@ func (*FlowMod).MarshalBinary(f) (data, err)
+//@   ensures[C13 C01] f.Header.Length == uint16(size(f))
+//@   modifies f.Header.Length
+//@   loop 1:
+//@     invariant err == nil && len(data) == 48 + size(f.Match) + sum(f.Instructions, #k)
+
+//@ spec size(f *FlowRemoved) = 48 + size(f.Match)
+//@ spec wf(f *FlowRemoved) = wf(f.Match)
+
+//@ func (*FlowRemoved).MarshalBinary(f) (data, err)
+//@   flag notrunc
+
+//@ spec size(g *GroupMod) = 16 + ite(g.Command == 2, 0, sum(g.Buckets))
+//@ spec wf(g *GroupMod) = allwf(g.Buckets) && g.Header.Version == 4 && g.Header.Type == 15
+
+//@ func (*GroupMod).Len(g) (n)
+//@   loop 1:
+//@     invariant n == uint16(16 + sum(g.Buckets, #k))
+
+//@ func (*GroupMod).MarshalBinary(g) (data, err)
+//@   ensures[C13 C01] g.Header.Length == uint16(size(g))
+//@   modifies g.Header.Length
+//@   loop 1:
+//@     invariant err == nil && len(data) == 16 + sum(g.Buckets, #k)
+
+//@ spec size(b *Bucket) = pad8(16 + sum(b.Actions))
+//@ spec wf(b *Bucket) = allwf(b.Actions)
+
+//@ func (*Bucket).Len(b) (n)
+//@   loop 1:
+//@     invariant n == uint16(16 + sum(b.Actions, #k))
+
+//@ func (*Bucket).MarshalBinary(b) (data, err)
+//@   ensures[C13 C02] b.Length == uint16(size(b))
+//@   modifies b.Length
+//@   loop 1:
+//@     invariant err == nil && len(data) == 16 + sum(b.Actions, #k)
+
+//@ spec size(p *PhyPort) = 42 + len(p.HWAddr) + len(p.Name)
+//@ spec wf(p *PhyPort) = len(p.HWAddr) == 6 && len(p.Name) == 16 && len(p.pad) <= 4 && len(p.pad2) <= 2
+
+//@ func (*PhyPort).MarshalBinary(p) (data, err)
+//@   flag notrunc
+
+//@ spec size(p *PortMod) = 40
+//@ spec wf(p *PortMod) = len(p.pad) <= 4 && len(p.HWAddr) <= 6 && len(p.pad2) <= 2 && len(p.pad3) <= 4 && p.Header.Version == 4 && p.Header.Type == 16
+
+//@ func (*PortMod).MarshalBinary(p) (data, err)
+//@   ensures[C13 C01] p.Header.Length == uint16(size(p))
+//@   modifies p.Header.Length
+
+//@ spec size(p *PortStatus) = 16 + size(p.Desc)
+//@ spec wf(p *PortStatus) = wf(p.Desc) && len(p.pad) <= 7
+
+//@ func (*PortStatus).MarshalBinary(s) (data, err)
+//@   ensures[C13 C01] s.Header.Length == uint16(size(s))
+//@   modifies s.Header.Length
+
+//@ spec size(p *PacketOut) = 24 + sum(p.Actions) + size(p.Data)
+//@ spec wf(p *PacketOut) = allwf(p.Actions) && wf(p.Data) && p.Header.Version == 4 && p.Header.Type == 13
+
+//@ func (*PacketOut).Len(p) (n)
+//@   loop 1:
+//@     invariant n == uint16(24 + sum(p.Actions, #k))
+
+//@ func (*PacketOut).MarshalBinary(p) (data, err)
+//@   ensures[C13 C01] p.Header.Length == uint16(size(p))
+//@   flag notrunc
+//@   modifies p.Header.Length
+//@   loop 1:
+//@     invariant n == 24 + sum(p.Actions, #k)
+
+//@ spec size(p *PacketIn) = 26 + size(p.Match) + size(p.Data)
+//@ spec wf(p *PacketIn) = wf(p.Match) && wf(p.Data) && len(p.pad) <= 2
+
+//@ spec size(c *SwitchConfig) = 12
+//@ spec wf(c *SwitchConfig) = c.Header.Version == 4 && (c.Header.Type == 9 || c.Header.Type == 8)
+
+//@ func (*SwitchConfig).MarshalBinary(c) (data, err)
+//@   ensures[C13 C01] c.Header.Length == uint16(size(c))
+//@   modifies c.Header.Length
+
+//@ spec size(e *ErrorMsg) = 12 + size(e.Data)
+//@ spec wf(e *ErrorMsg) = true
+
+//@ func (*ErrorMsg).MarshalBinary(e) (data, err)
+//@   flag notrunc
+
+//@ spec size(e *VendorError) = 16 + size(e.ErrorMsg.Data)
+//@ spec wf(e *VendorError) = e.ErrorMsg != nil
+
+//@ func (*VendorError).MarshalBinary(e) (data, err)
+//@   flag notrunc
+
+//@ spec size(s *SwitchFeatures) = 24 + len(s.DPID) + sum(s.Ports)
+//@ spec wf(s *SwitchFeatures) = allwf(s.Ports) && len(s.DPID) == 8 && len(s.pad) == 2
+
+//@ func (*SwitchFeatures).Len(s) (n)
+//@   loop 1:
+//@     invariant n == uint16(24 + len(s.DPID) + sum(s.Ports, #k))
+
+//@ func (*SwitchFeatures).MarshalBinary(s) (data, err)
+//@   ensures[C13 C01] s.Header.Length == uint16(size(s))
+//@   flag notrunc
+//@   modifies s.Header.Length
+//@   loop 1:
+//@     invariant err == nil && next == 24 + sum(s.Ports, #k)
+
+//@ spec size(v *VendorHeader) = 16 + ite(v.VendorData != nil, size(v.VendorData), 0)
+//@ spec wf(v *VendorHeader) = (v.VendorData != nil ==> wf(v.VendorData)) && v.Header.Version == 4 && v.Header.Type == 4
+
+//@ func (*VendorHeader).MarshalBinary(v) (data, err)
+//@   ensures[C13 C01] v.Header.Length == uint16(size(v))
+//@   flag notrunc
+//@   modifies v.Header.Length
+
+// ---------------------------------------------------------------------------------------------
+// multipart (section 7.3.5)
+
+//@ spec size(s *MultipartRequest) = 16 + size(s.Body)
+//@ spec wf(s *MultipartRequest) = wf(s.Body) && s.Header.Version == 4 && s.Header.Type == 18
+
+//@ func (*MultipartRequest).MarshalBinary(s) (data, err)
+//@   ensures[C13 C01] s.Header.Length == uint16(size(s))
+//@   modifies s.Header.Length
+
+//@ spec size(s *MultipartReply) = 16 + sum(s.Body)
+//@ spec wf(s *MultipartReply) = allwf(s.Body)
+
+//@ func (*MultipartReply).Len(s) (n)
+//@   loop 1:
+//@     invariant n == uint16(16 + sum(s.Body, #k))
+
+//@ func (*MultipartReply).MarshalBinary(s) (data, err)
+//@   ensures[C13 C01] s.Header.Length == uint16(size(s))
+//@   modifies s.Header.Length
+//@   loop 1:
+//@     invariant err == nil && len(data) == 16 + sum(s.Body, #k)
+
+//@ spec size(s *DescStats) = 1056
+//@ spec wf(s *DescStats) = len(s.MfrDesc) == 256 && len(s.HWDesc) == 256 && len(s.SWDesc) == 256 && len(s.SerialNum) == 32 && len(s.DPDesc) == 256
+
+//@ func (*DescStats).MarshalBinary(s) (data, err)
+//@   flag notrunc
+
+//@ spec size(s *FlowStatsRequest) = 32 + size(s.Match)
+//@ spec wf(s *FlowStatsRequest) = wf(s.Match) && len(s.pad) <= 3 && len(s.pad2) <= 4
+
+//@ spec size(s *FlowStats) = 48 + size(s.Match) + sum(s.Instructions)
+//@ spec wf(s *FlowStats) = wf(s.Match) && allwf(s.Instructions) && len(s.pad2) == 4
+
+//@ func (*FlowStats).Len(s) (n)
+//@   loop 1:
+//@     invariant n == uint16(48 + size(s.Match) + sum(s.Instructions, #k))
+
+//@ func (*FlowStats).MarshalBinary(s) (data, err)
+//@   loop 1:
+//@     invariant err == nil && len(data) == 48 + size(s.Match) + sum(s.Instructions, #k)
+
+//@ spec size(s *AggregateStatsRequest) = 32 + size(s.Match)
+//@ spec wf(s *AggregateStatsRequest) = wf(s.Match) && len(s.pad) <= 3 && len(s.pad2) <= 4
+
+//@ spec size(s *AggregateStats) = 24
+//@ spec wf(s *AggregateStats) = len(s.pad) <= 4
+
+//@ spec size(s *TableStats) = 64
+//@ spec wf(s *TableStats) = len(s.pad) == 3 && len(s.Name) == 32
+
+//@ func (*TableStats).MarshalBinary(s) (data, err)
+//@   flag notrunc
+
+//@ spec size(s *PortStatsRequest) = 8
+//@ spec wf(s *PortStatsRequest) = len(s.pad) <= 6
+
+//@ spec size(s *PortStats) = 104
+//@ spec wf(s *PortStats) = len(s.pad) == 6
+
+//@ spec size(s *QueueStatsRequest) = 8
+//@ spec wf(s *QueueStatsRequest) = len(s.pad) <= 2
+
+//@ spec size(s *QueueStats) = 32
+//@ spec wf(s *QueueStats) = len(s.pad) <= 2
+
+// ---------------------------------------------------------------------------------------------
+// bundles (ONF EXT-230) and Nicira vendor messages
+
+//@ spec size(b *BundleControl) = 8
+//@ spec wf(b *BundleControl) = true
+
+//@ spec size(p *BundlePropertyExperimenter) = 12 + len(p.data)
+//@ spec wf(p *BundlePropertyExperimenter) = true
+
+//@ spec size(b *BundleAdd) = 8 + size(b.Message) + sum(b.Properties)
+//@ spec wf(b *BundleAdd) = wf(b.Message) && allwf(b.Properties)
+
+//@ func (*BundleAdd).Len(b) (n)
+//@   loop 1:
+//@     invariant length == uint16(8 + size(b.Message) + sum(b.Properties, #k))
+
+//@ func (*BundleAdd).MarshalBinary(b) (data, err)
+//@   flag notrunc
+//@   loop 1:
+//@     invariant n == 8 + size(b.Message) + sum(b.Properties, #k)
+
+//@ spec size(c *ControllerID) = 8
+//@ spec wf(c *ControllerID) = true
+
+//@ spec size(t *TLVTableMap) = 8
+//@ spec wf(t *TLVTableMap) = true
+
+//@ spec size(t *TLVTableMod) = 8 + sum(t.TlvMaps)
+//@ spec wf(t *TLVTableMod) = allwf(t.TlvMaps)
+
+//@ func (*TLVTableMod).Len(t) (n)
+//@   loop 1:
+//@     invariant length == uint16(8 + sum(t.TlvMaps, #k))
+
+//@ func (*TLVTableMod).MarshalBinary(t) (data, err)
+//@   flag notrunc
+//@   loop 1:
+//@     invariant n == 8 + sum(t.TlvMaps, #k)
+
+//@ spec size(t *TLVTableReply) = 16 + sum(t.TlvMaps)
+//@ spec wf(t *TLVTableReply) = allwf(t.TlvMaps)
+
+//@ func (*TLVTableReply).Len(t) (n)
+//@   loop 1:
+//@     invariant length == uint16(16 + sum(t.TlvMaps, #k))
+
+//@ func (*TLVTableReply).MarshalBinary(t) (data, err)
+//@   flag notrunc
+//@   loop 1:
+//@     invariant n == 16 + sum(t.TlvMaps, #k)
+
+// ---------------------------------------------------------------------------------------------
+// Nicira extension actions (nicira-ext.h nx_action_*): 16-bit length lives in the embedded ofp action header
+
+//@ spec size(a *NXActionHeader) = 10
+//@ spec wf(a *NXActionHeader) = a.ActionHeader != nil
+
+//@ spec size(a *NXActionConjunction) = 16
+//@ spec wf(a *NXActionConjunction) = wf(a.NXActionHeader) && a.Length == 16
+
+//@ spec size(a *NXActionConnTrack) = 24 + sum(a.actions)
+//@ spec wf(a *NXActionConnTrack) = wf(a.NXActionHeader) && a.Length == uint16(24 + sum(a.actions)) && allwf(a.actions) && len(a.pad) <= 3
+
+//@ func (*NXActionConnTrack).MarshalBinary(a) (data, err)
+//@   flag notrunc
+//@   loop 1:
+//@     invariant n == 24 + sum(a.actions, #k)
+
+//@ spec size(a *NXActionRegLoad) = 24
+//@ spec wf(a *NXActionRegLoad) = wf(a.NXActionHeader) && a.Length == 24 && a.DstReg != nil && a.DstReg.Field < 128
+
+//@ spec size(a *NXActionRegMove) = 24
+//@ spec wf(a *NXActionRegMove) = wf(a.NXActionHeader) && a.Length == 24 && a.SrcField != nil && a.DstField != nil && a.SrcField.Field < 128 && a.DstField.Field < 128
+
+//@ spec size(a *NXActionResubmit) = 16
+//@ spec wf(a *NXActionResubmit) = wf(a.NXActionHeader) && a.Length == 16
+
+//@ func (*NXActionResubmit).MarshalBinary(a) (data, err)
+//@   ensures[C13] a.TableID == 255
+//@   modifies a.TableID
+
+//@ spec size(a *NXActionResubmitTable) = 16
+//@ spec wf(a *NXActionResubmitTable) = wf(a.NXActionHeader) && a.Length == 16
+
+// NAT: 16 fixed bytes, then the range fields that are present, padded to 8. Len() rounds the stored length in place.
+//@ spec natlen(a *NXActionCTNAT) = 16 + ite(a.rangeIPv4Min != nil, 4, 0) + ite(a.rangeIPv4Max != nil, 4, 0) + ite(a.rangeIPv6Min != nil, 16, 0) + ite(a.rangeIPv6Max != nil, 16, 0) + ite(a.rangeProtoMin != nil, 2, 0) + ite(a.rangeProtoMax != nil, 2, 0)
+//@ spec size(a *NXActionCTNAT) = pad8(natlen(a))
+//@ spec wf(a *NXActionCTNAT) = wf(a.NXActionHeader) && (int(a.Length) == natlen(a) || int(a.Length) == pad8(natlen(a)))
+
+//@ func (*NXActionCTNAT).Len(a) (n)
+//@   ensures[C13 C02] int(a.Length) == pad8(natlen(a))
+//@   modifies a.Length
+
+//@ func (*NXActionCTNAT).MarshalBinary(a) (data, err)
+//@   ensures[C13 C02] int(a.Length) == pad8(natlen(a))
+//@   modifies a.Length
+
+//@ spec size(a *NXActionOutputReg) = 24
+//@ spec wf(a *NXActionOutputReg) = wf(a.NXActionHeader) && a.Length == 24 && a.SrcField != nil && a.SrcField.Field < 128
+
+//@ spec size(a *NXActionCTClear) = 16
+//@ spec wf(a *NXActionCTClear) = wf(a.NXActionHeader) && a.Length == 16
+
+//@ spec size(a *NXActionDecTTL) = 16
+//@ spec wf(a *NXActionDecTTL) = wf(a.NXActionHeader) && a.Length == 16
+
+//@ spec size(a *NXActionDecTTLCntIDs) = 16 + 2*len(a.cntIDs)
+//@ spec wf(a *NXActionDecTTLCntIDs) = wf(a.NXActionHeader) && a.Length == uint16(16 + 2*len(a.cntIDs))
+
+//@ func (*NXActionDecTTLCntIDs).MarshalBinary(a) (data, err)
+//@   loop 1:
+//@     invariant n == 16 + 2*#k
+
+//@ spec size(h *NXLearnSpecHeader) = 2
+//@ spec wf(h *NXLearnSpecHeader) = h.length == 2 && h.nBits < 2048
+
+//@ spec size(f *NXLearnSpecField) = 6
+//@ spec wf(f *NXLearnSpecField) = f.Field != nil && f.Field.Field < 128
+
+//@ spec size(s *NXLearnSpec) = 2 + ite(s.Header.src, 2*((int(s.Header.nBits) + 15)/16), 6) + ite(s.Header.output, 0, 6)
+//@ spec wf(s *NXLearnSpec) = wf(s.Header) && (s.Header.src ==> len(s.SrcValue) >= 2*((int(s.Header.nBits) + 15)/16)) && (!s.Header.src ==> wf(s.SrcField)) && (!s.Header.output ==> wf(s.DstField))
+
+//@ func (*NXLearnSpec).MarshalBinary(s) (data, err)
+//@   flag notrunc
+
+//@ spec size(a *NXActionLearn) = pad8(32 + sum(a.LearnSpecs))
+//@ spec wf(a *NXActionLearn) = wf(a.NXActionHeader) && allwf(a.LearnSpecs)
+
+//@ func (*NXActionLearn).Len(a) (n)
+//@   loop 1:
+//@     invariant length == uint16(32 + sum(a.LearnSpecs, #k))
+
+//@ func (*NXActionLearn).MarshalBinary(a) (data, err)
+//@   ensures[C13 C02] a.Length == uint16(size(a))
+//@   flag notrunc
+//@   modifies a.Length
+//@   loop 1:
+//@     invariant err == nil && n == 32 + sum(a.LearnSpecs, #k)
+
+//@ spec size(a *NXActionNote) = pad8(10 + len(a.Note))
+//@ spec wf(a *NXActionNote) = wf(a.NXActionHeader)
+
+//@ func (*NXActionNote).MarshalBinary(a) (data, err)
+//@   ensures[C13 C02] a.Length == uint16(size(a))
+//@   flag notrunc
+//@   modifies a.Length
+
+//@ spec size(a *NXActionRegLoad2) = pad8(10 + size(a.DstField))
+//@ spec wf(a *NXActionRegLoad2) = wf(a.NXActionHeader) && wf(a.DstField)
+
+//@ func (*NXActionRegLoad2).MarshalBinary(a) (data, err)
+//@   ensures[C13 C02] a.Length == uint16(size(a))
+//@   flag notrunc
+//@   modifies a.Length
+
+//@ spec size(a *NXActionController) = 16
+//@ spec wf(a *NXActionController) = wf(a.NXActionHeader)
+
+//@ func (*NXActionController).MarshalBinary(a) (data, err)
+//@   ensures[C13 C02] a.Length == uint16(size(a))
+//@   modifies a.Length
